@@ -48,7 +48,8 @@ def strategy(ctx):
     modes = ["SIMPLE", "SIMPLE", "MUTATION_ANALYSIS"] if ctx.params.get("mutation_analysis") else ["SIMPLE"]
 
     return st.fixed_dictionaries({
-        "module": st.sampled_from(MODULES),
+        # vfx_tokens: module-level state consumed by calls, so the exporter's re-execution can raise where the observation did not
+        "module": st.sampled_from(MODULES + ["vfx_tokens", "vfx_tokens"]),
         "seed": st.integers(0, 10**6),
         "source": st.sampled_from(["factory", "factory", "search"]),
         "tests": st.lists(st.tuples(st.integers(0, 10**6), st.integers(2, 9)).map(list), min_size=2, max_size=5),
